@@ -6,8 +6,12 @@ EXTENDS Integers, Sequences, SequencesExt, Json, IOUtils, TLC
 Histories == UNION {[1..n -> {"P", "F"}] : n \in 1..5}
 Cases == {[threshold |-> t, history |-> h] : t \in 1..3, h \in Histories}
 RetryCounts == (0..70) \cup {-1}
+\* list-call patterns for the poll loop (F = the list call fails, S = it succeeds with an empty list) and the ways
+\* a list call can fail: any of them must make the agent wait before it asks again
+ListPatterns == UNION {[1..n -> {"F", "S"}] : n \in 1..5}
+FailKinds == {"500-body", "503-empty", "502-empty", "401-empty", "204-empty", "200-garbage", "200-truncated", "reset"}
 VARIABLE x
 GInit == x = 0
 GNext == x' = x
-ASSUME JsonSerialize(IOEnv.VERIF_OUT, [health |-> SetToSeq(Cases), retry |-> SetToSeq(RetryCounts)])
+ASSUME JsonSerialize(IOEnv.VERIF_OUT, [health |-> SetToSeq(Cases), retry |-> SetToSeq(RetryCounts), patterns |-> SetToSeq(ListPatterns), failkinds |-> SetToSeq(FailKinds)])
 =============================================================================
